@@ -225,6 +225,11 @@ inline int driverMain(int argc, char** argv, Engine& e) {
         return 2;
     }
     setvbuf(stdout, 0, _IOLBF, 0);
+    {   // a run must not depend on the signal dispositions and mask the caller happens to hand down (nohup, background jobs, SIGCHLD ignored)
+        static const int sigs[] = { SIGHUP, SIGINT, SIGQUIT, SIGTERM, SIGPIPE, SIGALRM, SIGUSR1, SIGUSR2, SIGCHLD, SIGCONT, SIGTSTP, SIGTTIN, SIGTTOU, SIGVTALRM, SIGPROF, SIGURG, SIGWINCH, SIGIO, SIGXCPU, SIGXFSZ };
+        for (size_t i = 0; i < sizeof sigs / sizeof sigs[0]; i++) signal(sigs[i], SIG_DFL);
+        sigset_t none; sigemptyset(&none); sigprocmask(SIG_SETMASK, &none, 0);
+    }
     e.initProcess();
 
     if (a.mode == "dump" || a.mode == "one") {            // description (and optionally execution) of run --index
